@@ -44,7 +44,7 @@ BOUNDS = {
                    'element_laws': 'one symbolic element per law',
                    'broadcast_law': 'ranks 1..3, dims<=2, every quantized '
                                     'dimension',
-              'solver_timeout_s': 120},
+              'solver_timeout_s': 300},
     'thorough': {'num_bits': [4, 8, 16], 'symmetric': [True, False],
                  'element_laws': 'one symbolic element per law',
                  'broadcast_law': 'ranks 1..4, dims<=3, every quantized '
@@ -339,7 +339,7 @@ def _rerr_lib_params(e, be, nb, sym):
   # FLT_MAX) is decided in BITS (C17.params.scale_finite).
   for ob in be.side:
     if ob.what.startswith('overflow'):
-      e.assume(ob.cond)
+      e.assume(ob.cond, check=False)
   return mn, mx, zp, sc
 
 
@@ -392,7 +392,7 @@ def h_coverage(nb, sym):
       dhi = uqt.uniform_dequantize(SymArray.from_numpy(np.array([hi], dt)), p)
     for ob in be.side[n0:]:
       if ob.what.startswith('overflow'):
-        e.assume(ob.cond)
+        e.assume(ob.cond, check=False)
     s = _as_sym(sc).el[0]
     e.witness('coverage', True)
     tol = s / 2 + s * _slack(nb)
@@ -419,7 +419,7 @@ def h_roundtrip_x(nb, sym):
       d = uqt.uniform_dequantize(q, p)
     for ob in be.side[n0:]:
       if ob.what.startswith('overflow'):
-        e.assume(ob.cond)
+        e.assume(ob.cond, check=False)
     s = _as_sym(sc).el[0]
     e.witness('roundtrip_x', True)
     err = d.el[0] - x.el[0]
@@ -483,7 +483,7 @@ def h_roundtrip_x_g(nb, sym):
       d = uqt.uniform_dequantize(q, p)
     for ob in be.side:
       if ob.what.startswith('overflow'):
-        e.assume(ob.cond)
+        e.assume(ob.cond, check=False)
     e.witness('roundtrip_x_g', True)
     err = d.el[0] - x.el[0]
     tol = s / 2 + s * _slack(nb, 8)
@@ -514,20 +514,21 @@ def h_roundtrip_code(nb, sym):
       q2 = uqt.uniform_quantize(d, p)
     for ob in be.side[n0:]:
       if ob.what.startswith('overflow'):
-        e.assume(ob.cond)
+        e.assume(ob.cond, check=False)
     e.witness('roundtrip_code', True)
     # lemma 1: the value handed to rint is within 1/4 of q
     pre = be.rints[n_r][0]
     ok1 = e.check('C17.roundtrip.code.pre_rint_within_quarter',
-                  z3.And(pre - q.el[0] <= z3.Q(1, 4), q.el[0] - pre <= z3.Q(1, 4)))
+                  z3.And(pre - q.el[0] <= z3.Q(1, 4), q.el[0] - pre <= z3.Q(1, 4)),
+                  tactic=[None, 'qfnra-nlsat'])
+    if not ok1:
+      return  # lemma 1 refuted or undecided: already reported
     # lemma 2 (linear): |pre - q| <= 1/4, |r - pre| <= 1/2, r integer => r == q;
     # q in range so the clip is the identity.
     lemma1 = z3.And(pre - q.el[0] <= z3.Q(1, 4), q.el[0] - pre <= z3.Q(1, 4))
     rr = be.rints[n_r][1]
     facts = [z3.And(rr - pre <= z3.Q(1, 2), pre - rr <= z3.Q(1, 2)),
-             z3.And(q.el[0] >= lo, q.el[0] <= hi)]
-    if ok1:
-      facts.append(lemma1)
+             z3.And(q.el[0] >= lo, q.el[0] <= hi), lemma1]
     e.check('C17.roundtrip.code.quantize_dequantize_identity',
             q2.el[0] == q.el[0], only_facts=facts)
   return h
@@ -556,7 +557,7 @@ def h_monotone(nb, sym):
       q = uqt.uniform_quantize(x, p)
     for ob in be.side:
       if ob.what.startswith('overflow'):
-        e.assume(ob.cond)
+        e.assume(ob.cond, check=False)
     e.witness('monotone', True)
     e.witness('monotone_strict', q.el[0] < q.el[1], optional=True)
     e._add(be.monotone_axioms())
